@@ -152,6 +152,7 @@ func (eval Evaluator) ShallowCopy() *Evaluator {
 		Evaluator:      heEvaluator,
 		xPow2N1:        eval.xPow2N1,
 		xPow2N2:        eval.xPow2N2,
+		xPow2InvN1:     eval.xPow2InvN1,
 		xPow2InvN2:     eval.xPow2InvN2,
 		DomainSwitcher: DomainSwitcher,
 		DFTEvaluator:   dft.NewEvaluator(paramsN2, heEvaluator),
